@@ -176,7 +176,6 @@ type evkWorld struct {
 	app2   basics.AppIndex
 	tinyV  []byte // assembled "int 1" program of the proto's AVM version (for inner app creates)
 	noteN  uint64
-	quietL logging.Logger
 }
 
 // evkTracer records, per top-level group, how many members were applied successfully and the index of
@@ -228,6 +227,10 @@ func evkOpenLedger(t *testing.T, cv protocol.ConsensusVersion, rewardsOff bool) 
 	dbName := fmt.Sprintf("evk-%s-%d-%d", strings.ReplaceAll(t.Name(), "/", "_"), vkShard(), evkLedgerCounter.Add(1))
 	cfg := config.GetDefaultLocal()
 	cfg.Archival = true
+	cfg.TxPoolSize, cfg.VerifiedTranscationsCacheSize = 8, 8 // only sizes the ledger's verified-signature cache (unused here)
+	// Keep every round of a case in the in-memory deltas: no tracker flush runs concurrently with the lookups
+	// (in-memory sqlite answers "database table is locked" to readers while the flush writes).
+	cfg.MaxAcctLookback = 400
 	l, err := OpenLedger(log, dbName, true, ledgercore.InitState{
 		Block:       genBlock,
 		Accounts:    genBalances.Balances,
@@ -555,3 +558,13 @@ func evkTrunc(s string, n int) string {
 }
 
 func evkShort(a basics.Address) string { return a.String()[:6] }
+
+// evkAddr: a deterministic synthetic address (nobody needs its key: TransactionGroup does not verify signatures).
+func evkAddr(tag byte, i int) basics.Address {
+	var a basics.Address
+	for k := range a {
+		a[k] = tag
+	}
+	a[0] = byte(i)
+	return a
+}
